@@ -33,6 +33,9 @@
 //! `window-builder-default-frame` — `ExprFunctionExt::order_by(..).build()` without a frame
 //! builds ROWS UNBOUNDED PRECEDING..CURRENT ROW (it passes "has an ORDER BY" where WindowFrame::new expects "ordering is
 //! strict"), while SQL text without a frame means RANGE: peers (rows with equal keys) get different running aggregates.
+//! `window-partition-by-not-ordered` (open; root cause = the C01 finding of that name): `df.filter(c2 + c2 = c2).window(row_number() OVER
+//! (PARTITION BY c2 ORDER BY g1, c2))` fails at run time with `Execution error: Expects PARTITION BY expression to be ordered` while the SQL
+//! rendering (derived-table aliases in between) runs. Signature: one side fails with that message.
 //! Planner defects met by the thorough tier where BOTH sides fail (discarded as `both sides fail with an internal error`, nothing to compare):
 //! interleave assertion — `df.join(t0 on id).with_column(max(f) OVER (PARTITION BY id)).union(same)` fails
 //! while planning with `Internal error: Assertion failed: can_interleave(children.iter())` raised by EnsureRequirements (2 MemTable
@@ -898,6 +901,10 @@ fn evaluate(case: &Case) -> (CaseResult, Option<String>) {
 /// shape of the known finding `offset-only-limit-under-sort`: rows differ and a skip-only limit sits under a later sort
 fn failure_signature(case: &Case, r: &CaseResult) -> Option<String> {
     let Outcome::Violation(m) = &r.outcome else { return None };
+    if m.contains("Expects PARTITION BY expression to be ordered") {
+        // root cause = C01 `window-partition-by-not-ordered` (window partitioned / ordered by v under a filter `v + v = v`); here only one side hits it
+        return Some("window-partition-by-not-ordered".to_string());
+    }
     if !m.starts_with("DataFrame rows differ") {
         return None;
     }
